@@ -19,6 +19,7 @@ def main():
     meta = {"id": sid, "property": prop, "summary": notes.get("summary"), "needs": notes.get("needs"), "source": "independent sub-agent given only the property text", "ran": []}
     try:
         rc, out = sh(f"git -C /repo worktree add -q --detach {wt} HEAD"); assert rc == 0, out
+        os.makedirs(os.path.join(wt, pkgdir), exist_ok=True)
         for f in demo:
             shutil.copy(os.path.join(src, f), os.path.join(wt, pkgdir, "zz_seed_" + f))
         rc0, out0 = sh(f"go test -vet=off -count=1 -timeout 10m -run '{regex}' ./{pkgdir}/", cwd=wt)
